@@ -458,6 +458,7 @@ def expectedMutators : List (String × String × String) := [
   ("Bytecode.Decode", "Constants", "elem"),
   ("Bytecode.Decode", "FileSet", "addr"),
   ("Bytecode.Decode", "MainFunction", "addr"),
+  ("Bytecode.RemoveDuplicates", "Constants", "elem"),
   ("Bytecode.RemoveDuplicates", "Constants", "field"),
   ("Bytecode.ReplaceBuiltinModule", "Constants", "elem"),
   ("BytesIterator.Next", "i", "field"),
